@@ -10,14 +10,15 @@ def check(tier):
     pvh = build_harness()
     rendercommon.render_replay(rep, pvh, "MC_RenderC13", ["MC_RenderC13_sig.cfg", "MC_RenderC13_kinds.cfg"])
     # recursion without a base case: each program in a process of its own (a missing guard kills the process)
-    rendercommon.render_replay(rep, pvh, "MC_RenderC13", ["MC_RenderC13_rec.cfg"], isolated=True)
+    rendercommon.render_replay(rep, pvh, "MC_RenderC13", ["MC_RenderC13_rec.cfg", "MC_RenderC13_recplace.cfg"], isolated=True)
     rep.assumptions += ["default expressions are error-free (whether a default is evaluated when its argument was supplied is not fixed)",
                         "MaxMacroDepth is 6 in the model and 1000 in the code; only unbounded recursion reaches either"]
     return rep.finish(
         rule="all signatures with 0..4 parameters x every subset of parameters with defaults x 0..n+1 arguments x {local, imported, imported "
              "under an alias} (480 programs; TLC also checks ImportEqualsLocal on the model), parameters probed after the call; markup results "
              "through output/set/with/if/loops/autoescape off; all call graphs of 1..3 macros in which every macro calls a macro "
-             "unconditionally, local and imported (64), each run in its own process and required to end in an execution error.",
+             "unconditionally, local and imported (64), and all graphs of 1..2 macros with the call placed in the body, in a parameter default, "
+             "as an argument, in a set binding or in a loop (360), each run in its own process and required to end in an execution error.",
         exhaustive=True)
 
 
